@@ -539,5 +539,34 @@ def finish(res: Result, lean: LeanStatus | None, t0: float) -> int:
     return status
 
 
+def source_hash(globs: list[str]) -> str:
+    """content hash of the named parts of /repo's working tree (a cache key: a result computed from these files
+    by execution may be reused as long as none of them changed)"""
+    h = hashlib.sha256()
+    for g in globs:
+        for f in sorted(REPO.glob(g)):
+            if f.is_file():
+                h.update(str(f.relative_to(REPO)).encode())
+                h.update(f.read_bytes())
+    return h.hexdigest()[:20]
+
+
+def cached_json(name: str, globs: list[str], compute: Any) -> Any:
+    """memoise `compute()` (JSON-serialisable) on disk, keyed by the content of the given source files"""
+    cache = VERIF / ".cache"
+    cache.mkdir(exist_ok=True)
+    path = cache / f"{name}-{source_hash(globs)}.json"
+    if path.exists() and not os.environ.get("VERIF_NO_CACHE"):
+        try:
+            return json.loads(path.read_text())
+        except ValueError:
+            pass
+    val = compute()
+    for old in cache.glob(f"{name}-*.json"):
+        old.unlink(missing_ok=True)
+    path.write_text(json.dumps(val))
+    return val
+
+
 def rng(tag: str = "") -> random.Random:
     return random.Random(f"{seed()}:{tag}")
